@@ -393,8 +393,26 @@ def gen_a(rng, depth, perr):
     return ('bin', '&', gen_n(rng, depth, perr), gen_n(rng, depth, perr))
 
 
+def gen_codetext(rng):
+    """a TEXT value that spells an error code (a literal, a concatenation, through ID): text is not an error, whatever it says"""
+    code = rng.choice(sorted(CODES.values()))
+    if rng.random() < 0.3:
+        code = code.lower()
+    r = rng.random()
+    if r < 0.4:
+        t = ('num', 'txt', '"%s"' % code, '')
+    else:
+        k = rng.randrange(1, len(code))
+        t = ('bin', '&', ('num', 'txt', '"%s"' % code[:k], ''), ('num', 'txt', '"%s"' % code[k:], ''))
+    if rng.random() < 0.3:
+        t = ('call', 'ID', 'flat', [t], [])
+    return t
+
+
 def gen(rng, depth, perr):
     r = rng.random()
+    if r < 0.04:
+        return gen_codetext(rng)
     if r < 0.6:
         return gen_n(rng, depth, perr)
     if r < 0.85:
@@ -525,6 +543,10 @@ def cases(rng, ctx):
         out.append({'kind': 'formula', 'f': f})
     for t in FIXED_TREES:
         out.append({'kind': 'tree', 't': t})
+    # text that spells an error code is text: every code, written out and concatenated
+    for code in sorted(CODES.values()):
+        out.append({'kind': 'tree', 't': ('num', 'txt', '"%s"' % code, '')})
+        out.append({'kind': 'tree', 't': ('bin', '&', ('num', 'txt', '"%s"' % code[:2], ''), ('num', 'txt', '"%s"' % code[2:], ''))})
     for _ in range(n):
         t = gen(rng, rng.randrange(1, maxd + 1), rng.choice([0.15, 0.3, 0.6]))
         out.append({'kind': 'tree', 't': t})
